@@ -196,6 +196,29 @@ func vpH_C11_T_reconnect_verify() {
 
 // vpH_C11_T_stop_vs_expiry: Stop (both variants) placed by the explorer at every point of a disconnect /
 // grace-expiry sequence, including inside the expiry handler (the logger is a scheduling point).
+// vpH_C11_T_stop_vs_notify: a disconnect notification placed by the explorer at every switch point of a running
+// Stop / StopWithContext (the Metrics calls inside the stop call's critical section are scheduling points).
+func vpH_C11_T_stop_vs_notify() {
+	H := time.Second
+	s := vpConnInstance(H, 2*H, map[string]bool{"connection_disconnected": true})
+	s.m.yieldOn = true
+	s.kv.opLeft = 40
+	variant := vpChoose("variant", 2)
+	stopped := false
+	go func() {
+		vpYieldLazy("notify.D", H)
+		s.notify(0)
+	}()
+	time.Sleep(H / 4)
+	_ = vpDoStop(s.e, variant)
+	stopped = true
+	time.Sleep(6 * time.Second)
+	vpQuiesce()
+	vpCover("C11.stop-vs-notify")
+	vpAssert("C11.no-deadlock", vpDeadlocked() == "" && stopped)
+	vpAssert("C11.threads-end", vpThreadsAlive() == 0)
+}
+
 func vpH_C11_T_stop_vs_expiry() {
 	H := time.Second
 	s := vpConnInstance(H, 2*H, map[string]bool{"demoting_due_to_connection_loss": true, "connection_disconnected": true})
